@@ -445,18 +445,19 @@ func init() {
 				case 1:
 					send := genInstant(c)
 					var delay int64
+					// the largest whole number of nanoseconds below 64 s - 2^-18 s (63999996185.3 ns); itself admitted
 					const maxDelay = 64000000000 - 3815
 					switch c.Intn(4) {
 					case 0:
-						delay = int64(c.U64() % maxDelay)
+						delay = int64(c.U64() % (maxDelay + 1))
 					case 1:
-						delay = maxDelay - 1 - int64(c.Intn(10))
+						delay = maxDelay - int64(c.Intn(10))
 					case 2:
 						delay = int64(c.Intn(10))
 					default:
 						delay = int64(c.U64()%64)*1000000000 + int64(c.Intn(3))
-						if delay >= maxDelay {
-							delay = maxDelay - 1
+						if delay > maxDelay {
+							delay = maxDelay
 						}
 					}
 					// the property restricts the SEND instant to the era; the packet may arrive up to 64 s after
